@@ -67,6 +67,9 @@ type FnCtx struct {
 	modePaths bool
 	substrAxiom bool
 	lastNext  *nextInfo
+	axiomsDone map[*AxiomDef]bool
+	trustedCalls map[string]int
+	pendingAxioms []*PredDef
 }
 
 type Frame struct {
@@ -84,6 +87,7 @@ type Frame struct {
 	deferFn   map[*ssa.Defer]SV
 	edgeGuards map[[2]*ssa.BasicBlock]Term
 	pathPred   *ssa.BasicBlock
+	loopLets   map[string]bound
 }
 
 type retState struct {
@@ -504,7 +508,37 @@ func (c *FnCtx) matchLoopSpecs(fr *Frame, loops map[*ssa.BasicBlock]*loopInfo) {
 	}
 }
 
+func (c *FnCtx) bindLoopLets(fr *Frame, st *State, li *loopInfo) {
+	if li.spec == nil || len(li.spec.Lets) == 0 {
+		return
+	}
+	if fr.loopLets == nil {
+		fr.loopLets = map[string]bound{}
+	}
+	env := c.specEnv(fr, st)
+	for _, l := range li.spec.Lets {
+		func() {
+			defer func() {
+				if r := recover(); r != nil {
+					if se, ok := r.(specError); ok {
+						c.eng.errorf("loop let %s: %s", l.Name, se.msg)
+						return
+					}
+					panic(r)
+				}
+			}()
+			v, t := env.eval(l.Expr)
+			if k, ok := v.(Kv); ok {
+				tm, ty := env.defaultConst(k)
+				v, t = Sc{tm}, ty
+			}
+			fr.loopLets[l.Name] = bound{v, t}
+		}()
+	}
+}
+
 func (c *FnCtx) loopEntry(fr *Frame, st *State, li *loopInfo) {
+	c.bindLoopLets(fr, st, li)
 	env := c.specEnv(fr, st)
 	if li.spec != nil && fr.depth == 0 {
 		for i := range li.spec.Invs {
@@ -515,6 +549,14 @@ func (c *FnCtx) loopEntry(fr *Frame, st *State, li *loopInfo) {
 	}
 	ms := c.loopMods(fr, li)
 	c.havoc(st, fr, ms, "loop "+li.key)
+	if li.spec != nil && len(li.spec.Mods) > 0 {
+		// interference: locations other threads may change between iterations
+		tmp := &FuncContract{Pkg: fr.contract.Pkg, Name: fr.contract.Name, HasMods: true, Modifies: li.spec.Mods}
+		c.noFrame++
+		c.applyModifiesEnv(fr, st, c.specEnv(fr, st), tmp)
+		c.noFrame--
+	}
+	c.bindLoopLets(fr, st, li)
 	if li.spec != nil {
 		env = c.specEnv(fr, st)
 		var assumed []Term
